@@ -29,13 +29,15 @@ def make_circular_aperture(diameter, center=None):
         shift = center * np.ones(2)
 
     def func(grid):
-        if grid.is_('cartesian'):
-            if grid.is_separated:
-                x, y = grid.separated_coords
+        if grid.is_('cartesian') or center is not None:
+            g = grid.as_('cartesian')
+
+            if g.is_separated:
+                x, y = g.separated_coords
                 x = x[np.newaxis, :]
                 y = y[:, np.newaxis]
             else:
-                x, y = grid.coords
+                x, y = g.coords
 
             f = (((x - shift[0])**2 + (y - shift[1])**2) <= (diameter / 2)**2).ravel()
         else:
